@@ -168,13 +168,29 @@ CLAIMS.update({
              "covered), multi-line mode, exit status, cross-file totals.",
         technique=K_TECH,
         design="2 (C10), 7.4"),
+    "C13": dict(
+        category="model_checking",
+        text="Kani on the real multi-line strategy (MultiLine::run) with the pattern given as a span table over absolute offsets "
+             "(E[s] = end of the match starting at s): for EVERY span table of the input (<=3 bytes) / every table with <=2 match "
+             "starts (4 bytes), enumerated in-harness, x {plain, contexts (1,1), inverted with and without contexts, passthru}, the "
+             "delivered events equal the model written from the property: the lines covered by the successive leftmost matches, "
+             "adjacent matches merged into one block, context/separators/numbering as in line mode, inverted = the complement. "
+             "Look-behind: additionally every alternative answer at a resumption point taken as start-of-haystack; the result must "
+             "follow the whole-input table. History: search_reader in multi-line mode run twice on one Searcher (reused buffer). "
+             "Line numbering is symbolic; tables and configurations are enumerated (a symbolic table does not terminate).",
+        note="Bounds: inputs 'a', 'a\\n', '\\n', 'a\\nb', 'a\\nb\\n' in the quick tier (3-line inputs in the thorough tier); tables with "
+             "<=2 match starts on 4-byte inputs. Known finding (inverted search resumes at the end of the previous match's LINES) is "
+             "reported as KNOWN-FINDING; the harness records it and keeps exploring the remaining tables. Outside: which spans a "
+             "real regex produces (C11/C01 H-obligations), --multiline-dotall, -U over mmap/CLI, heap limits, the printers' "
+             "handling of multi-line blocks.",
+        technique=K_TECH,
+        design="2 (C13), 7.4"),
     "C09": dict(
         category="other",
         text="Pieces only. (1) Searcher half, Kani: in every C03/C02/C13/C14 harness the recording sink compares the bytes of each delivered "
              "match/context line with the input at the reported absolute offset and checks the reported line number -- 'delivered lines and "
-             "coordinates are the input's own' holds for every explored run. (2) JSON half, Kani on fully symbolic bytes: jsont's base64 "
-             "encoder round-trips every <=4-byte input; Data::from_bytes chooses Text iff the bytes are valid UTF-8 (independent validator) "
-             "and preserves them. (3) submatch spans: find_iter_at_in_context lemmas (shared with C10).",
+             "coordinates are the input's own' holds for every explored run. (2) JSON half, Kani on fully symbolic bytes: Data::from_bytes chooses Text iff the bytes are valid UTF-8 (independent validator) "
+             "and preserves them (quick); jsont's base64 encoder round-trips every <=4-byte input against an RFC 4648 reference decoder (thorough tier only: ~10 min, 7-13 GB). (3) trim_line_terminator removes exactly the terminator of a line anywhere in a fully symbolic buffer. (4) submatch spans: find_iter_at_in_context lemmas (shared with C10).",
         note="NOT covered: the Standard printer's formatting (column, separators, --vimgrep per-match attribution, CRLF trimming in the "
              "multi-line slow printers) and the JSON message framing through serde_json: symbolic execution of that code (fmt, termcolor, "
              "serde) did not come within reach of CBMC. Changes confined to those printer paths are not detected by this check.",
